@@ -90,12 +90,25 @@ func (h *httpHandler) ServeHTTP(w http.ResponseWriter, r *http.Request) {
 		return
 	}
 
-	var wg sync.WaitGroup
 	e := h.executor
 
-	wg.Add(1)
+	// The rerunner never invokes the function if the request's context is
+	// cancelled before the first run, so waiting for the function alone could
+	// block forever. Once the function has started it is waited for, because it
+	// writes to w.
+	var mu sync.Mutex
+	started, abandoned := false, false
+	done := make(chan struct{})
+
 	runner := reactive.NewRerunner(r.Context(), func(ctx context.Context) (interface{}, error) {
-		defer wg.Done()
+		mu.Lock()
+		if started || abandoned {
+			mu.Unlock()
+			return nil, context.Canceled
+		}
+		started = true
+		mu.Unlock()
+		defer close(done)
 
 		ctx = batch.WithBatching(ctx)
 
@@ -128,6 +141,17 @@ func (h *httpHandler) ServeHTTP(w http.ResponseWriter, r *http.Request) {
 		return nil, nil
 	}, DefaultMinRerunInterval, false)
 
-	wg.Wait()
+	select {
+	case <-done:
+	case <-r.Context().Done():
+		mu.Lock()
+		if started {
+			mu.Unlock()
+			<-done
+		} else {
+			abandoned = true
+			mu.Unlock()
+		}
+	}
 	runner.Stop()
 }
